@@ -28,7 +28,7 @@ EXPLANATION = ('theorems C16_* (coq/props/C16.v) hold for all lists over any typ
 TRUSTED = ['modelled, not verified: CPython dict (insertion-ordered map with in-place assignment), set iteration order (any permutation; proved irrelevant), '
            'copy.copy of a dict subclass (fresh object with the same items), inspect-based getargs (names of positional parameters)']
 ASSUMPTIONS = ['elements are hashable with a lawful == (no NaN)', 'mapping keys are str without dots, values are leaves (not dicts); nested merge is C15',
-               'callables passed to Dict.__call__ take positional parameters without defaults and do not raise',
+               'callables passed to Dict.__call__ are plain functions with positional / defaulted / keyword-only parameters (no *args / **kwargs, no builtins or partials) and do not raise',
                "inherent name collisions of a dict subclass are outside the property: attribute access d.k for a key named like an attribute of dict / dictattr / Dict "
                "(keys, items, copy, ...) finds the method, and the KEYWORD spelling d.relabel(keys=...) / d.relabel(self=...) cannot name those two keys (the dict / affix / "
                "callable spellings can)",
@@ -83,6 +83,11 @@ def coq_items(items):
     return '[' + '; '.join('(%s, (%d))' % (coq_str(k), v) for k, v in items) + ']'
 CLS = {'dict': 'CPlain', 'dictattr': 'CDictattr', 'Dict': 'CDict', 'UA': 'CUserA', 'UD': 'CUserD'}
 
+def coq_fun(v):
+    """a callable: parameter names in order, each with its default if it has one (positional and keyword-only alike)"""
+    d = v.get('d', {})
+    return '(KFun [%s])' % '; '.join('(%s, %s)' % (coq_str(x), 'Some (%d)' % d[x] if x in d else 'None') for x in v['f'])
+
 def coq_runner(case):
     k = case['kind']
     if k == 'ulist': return 'run_ulist'
@@ -126,7 +131,7 @@ def coq_case(case):
             sel = {'elem': case['sel'][0]} if case['form'] == 'str' else {'ulist': case['sel']} if case['form'] == 'ulist' else {'list': case['sel']}
             t = '(%s %s)' % ({'keys_sub': 'OpKeysSub', 'keys_and': 'OpKeysAnd', 'keys_add': 'OpKeysAdd'}[op], coq_other(sel, coq_str, 'String.eqb'))
         return '(%s, %s, %s)' % (CLS[case['cls']], coq_items(case['items']), t)
-    kw = '[' + '; '.join('(%s, %s)' % (coq_str(k), '(KConst (%d))' % v['c'] if 'c' in v else '(KFun %s)' % coq_strs(v['f'])) for k, v in case['kw']) + ']'
+    kw = '[' + '; '.join('(%s, %s)' % (coq_str(k), '(KConst (%d))' % v['c'] if 'c' in v else coq_fun(v)) for k, v in case['kw']) + ']'
     return '(%s, %s, %s)' % (CLS[case['cls']], coq_items(case['base']), kw)
 
 # ------------------------------------------------------------------ implementation side + oracle
@@ -302,8 +307,12 @@ def impl_dict(case):
             if type(r) is not ulist or list(r) != want: viol = '%s %r returned %s %r, expected ulist %r' % (op, sel, type(r).__name__, list(r), want)
     return {'status': status, 'obs': obs, 'viol': viol}
 
-def make_fn(k, deps):
-    return eval('lambda %s: [%r%s]' % (', '.join(deps), k, ''.join(', ' + d for d in deps)))
+def make_fn(k, deps, dflt=None, ko=0):
+    """the free callable [k, arg1, ...]; dflt = defaults by parameter name; the last ko parameters are keyword-only"""
+    dflt = dflt or {}; ko = min(ko, len(deps))
+    text = [d + ('=%d' % dflt[d] if d in dflt else '') for d in deps]
+    if ko: text.insert(len(deps) - ko, '*')
+    return eval('lambda %s: [%r%s]' % (', '.join(text), k, ''.join(', ' + d for d in deps)))
 
 def sccs_ge2(nodes, edges):
     """is there a cycle of length >= 2 in the graph restricted to nodes"""
@@ -323,10 +332,11 @@ def impl_call(case):
     orders = list(itertools.permutations(kw)) if case.get('perms', 'all') == 'all' else [tuple(kw)]
     fkeys = [k for k, v in kw if 'f' in v]
     edges = {k: list(v['f']) for k, v in kw if 'f' in v}
+    dflts = {k: v.get('d', {}) for k, v in kw if 'f' in v}
     base = dict((k, v) for k, v in case['base'])
     consts = dict((k, v['c']) for k, v in kw if 'c' in v)
     avail = set(base) | set(consts) | set(fkeys) | {'key'}
-    complete = all(d in avail for k in fkeys for d in edges[k])
+    complete = all(d in avail or d in dflts[k] for k in fkeys for d in edges[k])
     cyc2 = sccs_ge2(set(fkeys), edges)
     selfloop = any(k in edges[k] for k in fkeys)
     expected = None
@@ -334,7 +344,7 @@ def impl_call(case):
         memo = {}
         def val(k):
             if k not in memo:
-                memo[k] = [k] + [val(d) if d in edges else consts[d] if d in consts else base[d] if d in base else k for d in edges[k]]
+                memo[k] = [k] + [val(d) if d in edges else consts[d] if d in consts else base[d] if d in base else k if d == 'key' else dflts[k][d] for d in edges[k]]
             return memo[k]
         expected = dict(base); expected.update(consts)
         for k in fkeys: expected[k] = val(k)
@@ -343,7 +353,7 @@ def impl_call(case):
     for k, v in case['base']: dict.__setitem__(d, k, v)
     before = list(dict.items(d))
     for order in orders:
-        kwargs = {k: (v['c'] if 'c' in v else make_fn(k, v['f'])) for k, v in order}
+        kwargs = {k: (v['c'] if 'c' in v else make_fn(k, v['f'], v.get('d'), v.get('ko', 0))) for k, v in order}
         try:
             r = d(**kwargs)
             results.append([type(r).__name__, [[k, v] for k, v in dict.items(r)]])
@@ -628,6 +638,38 @@ def gen_collide(rng, tier):
         out.append(case)
     return out
 
+def gen_defaults(rng, tier):
+    """callables with defaulted and keyword-only parameters named after other derived keys, base keys, the implicit key, or nothing"""
+    out = []
+    def with_defaults(case):
+        for kv in case['kw']:
+            v = kv[1]
+            if 'f' not in v: continue
+            names = list(v['f'])
+            req = [x for x in names if rng.random() < 0.5]
+            opt = [x for x in names if x not in req]
+            extra = [x for x in rng.sample(['p', 'q', 'key', 'nowhere', 'nope2'], rng.choice([0, 1, 2])) if x not in names]
+            opt = opt + extra; rng.shuffle(opt)
+            ko = rng.choice([0, 0, 1, 2])
+            if ko:          # keyword-only parameters may be required or defaulted in any order; positional ones: required first
+                tail = (req + opt)[-ko:]; head = [x for x in req + opt if x not in tail]
+                head = [x for x in head if x in req] + [x for x in head if x in opt]; rng.shuffle(tail)
+                order = head + tail
+            else: order = req + opt
+            v['f'] = order; v['d'] = {x: 100 + i for i, x in enumerate(opt)}; v['ko'] = ko
+        return case
+    for n in range(1, 4):                                   # every loop-free graph on <= 3 derived keys, every order, two default patterns each
+        for es in digraph_classes(n):
+            for _ in range(2): out.append(with_defaults(graph_case(rng, n, es, cls=rng.choice(['Dict', 'UD']))))
+    for _ in range(60 if tier == 'quick' else 1500):
+        n = rng.choice([2, 3, 4, 4])
+        out.append(with_defaults(graph_case(rng, n, rand_dag(rng, n) if rng.random() < 0.6 else rand_graph(rng, n), cls=rng.choice(['Dict', 'UD']))))
+    # the seeded example: c = lambda a, b = 100 must wait for the derived b
+    out.append({'kind': 'call', 'cls': 'Dict', 'base': [['a', 1]], 'kw': [['c', {'f': ['a', 'b'], 'd': {'b': 100}}], ['b', {'f': ['a']}]], 'perms': 'all'})
+    out.append({'kind': 'call', 'cls': 'Dict', 'base': [['a', 1]], 'kw': [['c', {'f': ['b'], 'd': {'b': 100}}], ['b', {'f': ['c'], 'd': {'c': 5}}]], 'perms': 'all'})
+    out.append({'kind': 'call', 'cls': 'Dict', 'base': [['a', 1]], 'kw': [['c', {'f': ['a', 'b'], 'd': {'b': 100}, 'ko': 1}], ['e', {'f': ['c', 'zz'], 'd': {'zz': 7, 'c': 0}, 'ko': 2}]], 'perms': 'all'})
+    return out
+
 def gen_large_call(rng, tier):
     out = []
     for _ in range(2 if tier == 'quick' else 20):
@@ -638,7 +680,7 @@ def gen_large_call(rng, tier):
     return out
 
 def gen_cases(rng, tier):
-    return gen_large_call(rng, tier) + gen_ulist(rng, tier) + gen_dict(rng, tier) + gen_call(rng, tier) + gen_collide(rng, tier)
+    return gen_large_call(rng, tier) + gen_defaults(rng, tier) + gen_ulist(rng, tier) + gen_dict(rng, tier) + gen_call(rng, tier) + gen_collide(rng, tier)
 
 def shrink(case):
     k = case['kind']
@@ -666,8 +708,8 @@ def shrink(case):
                 yield dict(case, kw=[list(x) for x in p], perms='one')
         for i in range(len(kw)):
             gone = kw[i][0]
-            yield dict(case, kw=[[k, ({'f': [d for d in v['f'] if d != gone]} if 'f' in v else v)] for k, v in kw[:i] + kw[i + 1:]])
+            yield dict(case, kw=[[k, (dict(v, f=[d for d in v['f'] if d != gone]) if 'f' in v else v)] for k, v in kw[:i] + kw[i + 1:]])
         for i, (k_, v) in enumerate(kw):
             if 'f' in v:
                 for j in range(len(v['f'])):
-                    yield dict(case, kw=kw[:i] + [[k_, {'f': v['f'][:j] + v['f'][j + 1:]}]] + kw[i + 1:])
+                    yield dict(case, kw=kw[:i] + [[k_, dict(v, f=v['f'][:j] + v['f'][j + 1:])]] + kw[i + 1:])
